@@ -18,15 +18,16 @@ CONFIGS = [("ctor", 1.0, None), ("assign", None, 0.5), ("assign", 1.0, 2.0), ("a
 
 
 def BOUND(tier):
-    return 2 if tier == "quick" else 3
+    return 3 if tier == "quick" else 4
 
 
 def RULE(tier):
     return ("real Doist(real=True).do() with one scripted doer for %d cycles; tock set at construction or assigned before do() (5 "
-            "configurations); every execution with <= %d deviations among: real time consumed by a recur in {0, T/2, 3T/2}, sleep "
-            "overshoot in {0, T/4, T, 5T/2}, backward system-clock step in {0, T/2, 3T} at any clock read (incl. a 'stall' equal to the "
-            "time just slept). Oracle: cycle k starts at true elapsed time >= k*T (T = doist.tock when do() is called); without clock "
-            "steps the start of cycle k equals max(ready_k, t0 + k*T + overshoot) (lossless pacing model)." % (4 if tier == "quick" else 5, BOUND(tier)))
+            "configurations); every execution with <= %d deviations among: real time consumed by a recur in {0, T/2, 3T/2, 5T/2}, sleep "
+            "overshoot in {0, T/4, T, 5T/2}, backward system-clock step in {0, T/2, 3T, 1/2048 s} at any clock read (incl. a 'stall' equal to the "
+            "time just slept), real time passing between construction and do() in {0, T/4, 3T/2}. Oracle: cycle k starts at true elapsed time >= k*T (T = doist.tock when do() is called); without clock "
+            "steps the start of cycle k equals max(ready_k, t0 + k*T + overshoot) (lossless pacing model); with steps the same with each "
+            "deadline moved by exactly the real time the steps so far can hide from a timer that compares consecutive readings." % (4 if tier == "quick" else 5, BOUND(tier)))
 
 
 def EXHAUSTIVE(tier):
@@ -47,16 +48,25 @@ class FakeClock:
         self.sleeps = []
         self.last_slept = 0.0
         self.armed = False
+        self.last_read = None        # true time of the previous clock read
+        self.pending = None          # true time at which the run loop is expected to read the clock next (end of a cycle's work)
+        self.lost = []               # (true time of the step, real time the step hides from a monotonic timer)
 
     def time(self):
         if self.armed:
-            alts = [0.0, self.T / 2, 3 * self.T]
+            alts = [0.0, self.T / 2, 3 * self.T, 1.0 / 2048]      # the last one: a sub-millisecond step (clock discipline jitter)
             if self.last_slept:
                 alts.append(self.last_slept)     # stall: the clock shows no progress over the last sleep
             j = alts[self.ch.choose(len(alts), "clock-step")]
             if j:
                 self.off -= j
                 self.jumps.append((self.true, j))
+                # what a timer that compares consecutive readings cannot know: the real time since its previous reading
+                # if the step is larger than that, else the step itself (it is invisible)
+                e = self.true - self.last_read if self.last_read is not None else 0.0
+                self.lost.append((self.true, min(e, j)))
+        self.last_read = self.true
+        self.pending = None
         return self.true + self.off
 
     def sleep(self, d):
@@ -66,12 +76,20 @@ class FakeClock:
         self.true += d + ov
         self.last_slept = d + ov
         self.sleeps.append((d, ov))
+        self.sleep_ends = getattr(self, "sleep_ends", {})
+        self.sleep_ends[self.true] = ov
         if len(self.sleeps) > 200:
             raise RuntimeError("sleep loop does not terminate")
 
     def consume(self, c):
+        # the run loop is expected to consult the clock when a cycle's work is done. If it did not do so after the previous
+        # cycle, that reading counts as made (without a step): what a later backward step can hide is the real time since the
+        # previous EXPECTED reading, however few readings the implementation actually makes
+        if self.pending is not None and self.last_read is not None:
+            self.last_read = self.pending
         self.true += c
         self.last_slept = 0.0
+        self.pending = self.true
 
 
 def harness(job, ch):
@@ -89,7 +107,7 @@ def harness(job, ch):
         class Work(doing.Doer):
             def recur(self, tyme):
                 starts.append(clk.true)
-                c = [0.0, T / 2, 1.5 * T][ch.choose(3, "consume")]
+                c = [0.0, T / 2, 1.5 * T, 2.5 * T][ch.choose(4, "consume")]
                 clk.consume(c)
                 consumed.append(c)
                 return len(starts) > ncycles
@@ -98,7 +116,10 @@ def harness(job, ch):
         if how == "assign":
             d.tock = t1
         Trun = d.tock
+        # real time may pass between building the scheduler and running it (less than a tock, or more)
+        clk.true += [0.0, T / 4, 1.5 * T][ch.choose(3, "delay-before-run")]
         clk.armed = True
+        clk.last_read = None      # the run (re)starts its timer at its first reading: nothing before it can be hidden
         t_call = clk.true
         err = None
         try:
@@ -141,6 +162,25 @@ def harness(job, ch):
                     viol.append(("drift:%s:%s" % ("late" if late else "early", cause),
                                  "config %s tock %s: cycle %d started at %s, lossless model says %s; consumed %s sleeps %s"
                                  % (cfg, Trun, k, starts[k] - t_call, model[k] - t_call, consumed, clk.sleeps)))
+                    break
+        if not viol and clk.jumps:
+            # with backward steps: deadline k is t0 + k*T plus the real time the steps so far could hide; a cycle starts when it is
+            # ready and its deadline has passed, i.e. at the end of the sleep that reached the deadline
+            ends = sorted(getattr(clk, "sleep_ends", {}))
+            for k in range(1, len(starts)):
+                ready = starts[k - 1] + consumed[k - 1]
+                want = None
+                for c in [ready] + [x for x in ends if x > ready]:      # the moments the run loop looks at its timer
+                    hidden = sum(l for t, l in clk.lost if t <= c)
+                    if c >= t_call + k * Trun + hidden:
+                        want = c
+                        break
+                if want is None or starts[k] != want:
+                    viol.append(("drift:%s:clock-step" % ("late" if want is None or starts[k] > want else "early"),
+                                 "config %s tock %s: cycle %d started at %s; counting the real time hidden by backward steps the first "
+                                 "wake-up at or after its deadline is %s; consumed %s sleeps %s steps %s hidden %s" % (
+                                     cfg, Trun, k, starts[k] - t_call, None if want is None else want - t_call, consumed, clk.sleeps,
+                                     [(t - t_call, j) for t, j in clk.jumps], [(t - t_call, l) for t, l in clk.lost])))
                     break
     obs = (tuple(x - t_call for x in starts), tuple(clk.sleeps), tuple(clk.jumps))
     return Outcome(obs=obs, violations=viol, states=[(k, round(s - t_call, 3)) for k, s in enumerate(starts)],
